@@ -698,6 +698,7 @@ class Planner:
             if num is not None and den is not None:
                 e = self.call("operator.mul", self.ref(num), self.ref(den))
                 if e is not None:
+                    self.multi_cancel = True
                     return e
         e = picks[0]
         opn = r.choice(["mul", "add", "mix"])
@@ -724,6 +725,7 @@ class Planner:
                 {"opt": True, "quadrature_degree": r.choice([2, 4]), "name": "k"},
                 {"a": 1, "b": [1, 2], "c": {"x": 1.5}},
             ]
+            + ([{"estimated_polynomial_degree": r.choice([1, 2, 3])}, {"quadrature_degree": 2, "estimated_polynomial_degree": 2}] if self.cfg.get("md_degree") else [])
         )
         out = self.new()
         if self.emit(["lit", out, md], kind="dict"):
@@ -1067,6 +1069,12 @@ class Planner:
     # ---------------------------------------------------------------- derived forms / algorithms
     def cfd_options(self):
         r = self.rng
+        if getattr(self, "multi_cancel", False) and r.random() < 0.5:
+            # the program holds a product in which several bases cancel at once: ask for the pass that cancels them
+            kw = {"do_apply_function_pullbacks": True, "do_apply_geometry_lowering": True, "do_cancel_jacobian_products": True}
+            if r.random() < 0.5:
+                kw["do_apply_integral_scaling"] = True
+            return kw
         kw = {}
         mode = r.random()
         if mode < 0.1 and self.cfg.get("user_sets", True):
@@ -1130,6 +1138,8 @@ class Planner:
             choices += ["rhs", "lhs", "action1"]
         if rank >= 1:
             choices += ["extract_blocks"]
+        if self.cfg.get("single_pass"):
+            choices += ["single_pass", "single_pass"]
         c = r.choice(choices)
         bias = [b for b in self.cfg.get("derive_bias", ()) if b in choices]
         if bias and r.random() < 0.6:
@@ -1217,6 +1227,30 @@ class Planner:
                 return None
             self.dicts.append(mapping)
             return self.call("ufl.replace", F, self.ref(mapping), kind="form", keep_failed=kf)
+        if c == "single_pass":
+            # one lowering pass called directly on the user's form (not through compute_form_data,
+            # which hands its passes freshly made integrals and metadata dicts), optionally on the
+            # output of the degree estimation
+            src = F
+            if r.random() < 0.5:
+                e = self.call("ufl.algorithms.compute_form_data.attach_estimated_degrees", F, kind="form", keep_failed=kf)
+                if e is None:
+                    return None
+                if r.random() < 0.2:
+                    return e
+                src = self.ref(e)
+            fn = r.choice(
+                [
+                    "ufl.algorithms.apply_integral_scaling.apply_integral_scaling",
+                    "ufl.algorithms.apply_integral_scaling.apply_integral_scaling",
+                    "ufl.algorithms.apply_geometry_lowering.apply_geometry_lowering",
+                    "ufl.algorithms.apply_function_pullbacks.apply_function_pullbacks",
+                    "ufl.algorithms.apply_restrictions.apply_restrictions",
+                    "ufl.algorithms.apply_restrictions.apply_default_restrictions",
+                    "ufl.algorithms.apply_derivatives.apply_derivatives",
+                ]
+            )
+            return self.call(fn, src, kind="form", keep_failed=kf)
         if c == "algebra_lowering":
             return self.call("ufl.algorithms.apply_algebra_lowering.apply_algebra_lowering", F, kind="form", keep_failed=kf)
         if c == "apply_derivatives_chain":
@@ -2161,6 +2195,16 @@ class Planner:
                 for q in (vi, vj):
                     if q is not None:
                         z = self.call("operator.mul", 0, self.ref(q))
+                        if z is not None:
+                            lits.append(z)
+                # zeros that carry the *same* free index over different extents (one index object
+                # used on vectors of different length in separate expressions)
+                if i is not None:
+                    sc = [t for t in M["coefs"] if self.shape(t) == ()][:1]
+                    for n in (2, 3):
+                        w = self.call("ufl.as_vector", [self.ref(sc[0]) if sc else 1.0] * n)
+                        wi = self.call("operator.getitem", self.ref(w), self.ref(i)) if w is not None else None
+                        z = self.call("operator.mul", 0, self.ref(wi)) if wi is not None else None
                         if z is not None:
                             lits.append(z)
                 if vi is not None and vj is not None:
